@@ -72,7 +72,7 @@ CHECKS['C19'] = {
                   'the computed (size, alignment) equals the HLSL structured-buffer resp. Metal ABI spec function (struct tail padding, vec3 = 4 scalars on Metal), has_same_offsets answers true only if every '
                   'struct member offset and array stride agrees recursively, and check_layout returning Ok implies that every structured-buffer element type and every typed load/store element type has '
                   'equal padded size and agreeing field offsets under both ABIs; a size-mismatch rejection reports the true padded sizes. The recursion of get_type_layout and has_same_offsets terminates (decreases on the containment rank). The guard the type checker uses to keep containment acyclic, contains_struct_by_value (typer/src/typer/structs.rs), answers true exactly if a value of the member type contains a value of the struct being defined - directly, as an array element or inside a member struct - and terminates.',
-    'level_note': 'Assumed: registry getters (get_type_layer, get_underlying_type_id, function registry getters), u32::next_multiple_of contract and vstd's specification of u32::checked_next_multiple_of / checked_add / checked_mul (the two rounding functions checked by bounded Kani harnesses for the alignments 1..64 only; the full-domain check is a divider equivalence that does not finish), HashSet key model for TypeId (u32::next_power_of_two is no longer assumed: discharged by a complete Kani harness), '
+    'level_note': 'Assumed: registry getters (get_type_layer, get_underlying_type_id, function registry getters), u32::next_multiple_of contract and the vstd specification of u32::checked_next_multiple_of / checked_add / checked_mul (the two rounding functions checked by bounded Kani harnesses for the alignments 1..64 only; the full-domain check is a divider equivalence that does not finish), HashSet key model for TypeId (u32::next_power_of_two is no longer assumed: discharged by a complete Kani harness), '
                   'the ABI rules as written in the spec functions (DXC C-like scalar alignment; MSL spec 2.2/2.3). Preconditions not proved of the typer: acyclic containment, vector lengths 1..4, alignments <= 4096 and vector elements <= 256 bytes (no bound on sizes: a size that leaves 32 bits is specified, and proved, to give no layout), '
                   'no literal/template types inside buffer elements, typed load/store intrinsics carry exactly one type argument. That parse_struct_internal applies the guard to every member, and that guarded members keep containment acyclic (the rank extension), are not verified. Rewrite N4 (for-loop desugaring, because Verus for-loops do not support `continue`) is applied to two loops of check_layout.',
 }
